@@ -65,7 +65,7 @@ def explore_case(ctx, rng, case, cfg, keys, ops, max_leaves, extra):
 
 def wl_explore(ctx, rng, case):
     cfg = ck.gen_cfg(rng)
-    keys = ck.gen_keys(rng, cfg, rng.randint(3, 12))
+    keys = ck.with_zero_fp_keys(ctx, rng, cfg, ck.gen_keys(rng, cfg, rng.randint(3, 12)), p=0.12)
     if len(keys) < 2:
         return
     n = rng.randint(4, 14)
@@ -178,7 +178,7 @@ def wl_long(ctx, rng, case):
     cfg.capacity = rng.choice([1, 2, 3])
     cfg.bucket_size = rng.choice([1, 2, 2, 3])
     cfg.max_swaps = rng.choice([2, 3, 5, 8])
-    keys = ck.gen_keys(rng, cfg, rng.randint(20, 60))
+    keys = ck.with_zero_fp_keys(ctx, rng, cfg, ck.gen_keys(rng, cfg, rng.randint(20, 60)), p=0.12)
     if len(keys) < 10:
         return
     ops = ck.gen_history(rng, keys, rng.randint(40, 120), p_remove=0.2, p_expand=0.03, p_reload=0.04)
